@@ -188,6 +188,34 @@ fn add_output_edge(ctx: &mut Ctx, r: &mut Rng, _i: u64) {
     let cb = guard(|| cand.to_bytes()).unwrap_or_default();
     ctx.nontrivial_bytes("addout", &cb);
     let mut tb = TransactionBuilder::new(&cfg);
+    if g.r.below(3) == 0 {
+        // the same candidate offered as the collateral return (a full output: datum hash / inline
+        // datum / script reference count towards its size exactly as for an ordinary output)
+        let kh = g.keyhash();
+        let addr = EnterpriseAddress::new(0, &Credential::from_keyhash(&kh)).to_address();
+        let input = TransactionInput::new(&TransactionHash::from_bytes(g.hash32()).unwrap(), 0);
+        let in_val = match guard(|| cand.amount().checked_add(&Value::new(&BigNum::from(5_000_000u64)))) {
+            Ok(Ok(v)) => v,
+            _ => return,
+        };
+        let mut cbld = TxInputsBuilder::new();
+        if !matches!(guard(|| cbld.add_regular_input(&addr, &input, &in_val)), Ok(Ok(()))) {
+            return;
+        }
+        tb.set_collateral(&cbld);
+        match guard(|| tb.set_collateral_return_and_total(&cand)) {
+            Ok(Ok(())) => {
+                if !satisfies {
+                    ctx.violation("set_collateral_return_and_total/accepted-return-below-min-ada", json!({"output": hx(&cb), "coins_per_byte": cpb}));
+                } else {
+                    ctx.bucket("collateral_return.accepted-at-or-above-min");
+                }
+            }
+            Ok(Err(_)) => ctx.bucket(if satisfies { "collateral_return.rejected-although-bound-met" } else { "collateral_return.rejected-below-min" }),
+            Err(p) => ctx.violation(&format!("set_collateral_return_and_total/{}", p.sig()), json!({"output": hx(&cb)})),
+        }
+        return;
+    }
     match guard(|| tb.add_output(&cand)) {
         Ok(Ok(())) => {
             if !satisfies {
